@@ -27,6 +27,7 @@ Side effects `[ ]`, the expression terminator `;;` and Unknown tokens are outsid
 The table is a parameter (`Table`); `Table.gen` is the table regenerated from parser.rs.
 -/
 import Garnish.Spec.Tree
+import Garnish.Spec.ParseTable
 
 namespace Garnish.Spec
 open Garnish Garnish.Gen Garnish.Model.Parser
@@ -40,6 +41,9 @@ structure Table where
 
 /-- the table regenerated from parser.rs (`get_definition`, `make_priority_map`) -/
 def Table.gen : Table := { define := getDefinition, prio := priority }
+
+/-- the language`s table (committed copy, Spec/ParseTable.lean): what the oracle uses -/
+def Table.spec : Table := { define := Spec.Lang.getDefinition, prio := Spec.Lang.priority }
 
 /-- reference tree: `node` = value / operator (children may be absent), `group` = closed bracket (opaque operand) -/
 inductive RTree where
@@ -245,5 +249,33 @@ def Table.rtlDefs (tbl : Table) : List Definition :=
   TokenType.all.filterMap (fun t => if (tbl.define t).2 == .binaryRightToLeft then some (tbl.define t).1 else none)
 
 def Table.rtl (tbl : Table) (d : Definition) : Bool := tbl.rtlDefs.contains d
+
+/-! ### the atoms + binary operators (+ closed brackets as atoms) fragment, for the uniqueness theorem -/
+
+/-- in-order items of the atoms + binary operators fragment: an atom is a value or a closed bracket (with its content) -/
+inductive Item where
+  | atom (t : RTree)
+  | op (d : Definition) (k : Nat)
+
+def items : RTree → List Item
+  | .nil => []
+  | .group d k inner => [.atom (.group d k inner)]
+  | .node l d k r => if l.isNil && r.isNil then [.atom (.node l d k r)] else items l ++ .op d k :: items r
+
+/-- atoms and full binary nodes only -/
+def binFrag : RTree → Bool
+  | .nil => false
+  | .group _ _ _ => true
+  | .node l _ _ r => (l.isNil && r.isNil) || (binFrag l && binFrag r)
+
+/-- every operator of the tree has a priority -/
+def allPrio (tbl : Table) : RTree → Bool
+  | .nil => true
+  | .group _ _ _ => true
+  | .node l d _ r => (tbl.prio d).isSome && allPrio tbl l && allPrio tbl r
+
+/-- operators of equal priority group the same way (true for the generated table: `Pair` is alone at its priority) -/
+def Consistent (tbl : Table) (rtlf : Definition → Bool) : Prop :=
+  ∀ d1 d2 p, tbl.prio d1 = some p → tbl.prio d2 = some p → rtlf d1 = rtlf d2
 
 end Garnish.Spec
